@@ -2150,6 +2150,9 @@ class Client:
 
         now = time_func()
         self._check_keepalive()
+        if self._sock is None:
+            # _check_keepalive() closed the connection and already reported it
+            return MQTTErrorCode.MQTT_ERR_CONN_LOST
 
         if self._ping_t > 0 and now - self._ping_t >= self._keepalive:
             # client->ping_t != 0 means we are waiting for a pingresp.
@@ -3278,6 +3281,7 @@ class Client:
                     self._send_pingreq()
                 except Exception:
                     self._sock_close()
+                    self._state = _ConnectionState.MQTT_CS_CONNECTION_LOST
                     self._do_on_disconnect(
                         packet_from_broker=False,
                         v1_rc=MQTTErrorCode.MQTT_ERR_CONN_LOST,
@@ -3293,6 +3297,7 @@ class Client:
                     self._state = _ConnectionState.MQTT_CS_DISCONNECTED
                     rc = MQTTErrorCode.MQTT_ERR_SUCCESS
                 else:
+                    self._state = _ConnectionState.MQTT_CS_CONNECTION_LOST
                     rc = MQTTErrorCode.MQTT_ERR_KEEPALIVE
 
                 self._do_on_disconnect(
